@@ -7,6 +7,8 @@ import (
 	"os"
 	"path/filepath"
 	"runtime"
+	"runtime/debug"
+	"runtime/pprof"
 	"sort"
 	"strconv"
 	"strings"
@@ -508,8 +510,14 @@ func main() {
 	if len(os.Args) < 2 {
 		fatalf("usage: symgo check <property> <quick|thorough> | replay <file> | list | selftest")
 	}
+	debug.SetGCPercent(300)
 	if v := os.Getenv("VERIF_ROOT"); v != "" {
 		verifRoot = v
+	}
+	if pf := os.Getenv("SYMGO_CPUPROFILE"); pf != "" {
+		f, _ := os.Create(pf)
+		pprof.StartCPUProfile(f)
+		defer pprof.StopCPUProfile()
 	}
 	switch os.Args[1] {
 	case "check":
@@ -517,7 +525,9 @@ func main() {
 		if len(os.Args) > 3 {
 			tier = os.Args[3]
 		}
-		os.Exit(checkMain(os.Args[2], tier))
+		rc := checkMain(os.Args[2], tier)
+		pprof.StopCPUProfile()
+		os.Exit(rc)
 	case "replay":
 		if replayFile(nil, os.Args[2], true) {
 			var rf ReplayFile
